@@ -531,6 +531,36 @@ theorem kindOk_of_pairs (T : Table) (exc : List String) :
         simp only [hne, Bool.false_eq_true, if_false] at hl ⊢
         exact ih xs (by simpa using hlen) hrest k c hl hk
 
+/-! ## Lemmas: `repair` is the identity on a sound table -/
+
+theorem lookup_of_mem : ∀ (T : Table) (p : String × Cls), p ∈ T → ∃ c, lookup T p.1 = some c := by
+  intro T
+  induction T with
+  | nil => intro p h; simp at h
+  | cons t ts ih =>
+    intro p hp
+    obtain ⟨tk, tc⟩ := t
+    by_cases hk : tk = p.1
+    · exact ⟨tc, by simp [lookup, hk]⟩
+    · rcases List.mem_cons.mp hp with rfl | hp'
+      · exact absurd rfl hk
+      · obtain ⟨c, hc⟩ := ih p hp'
+        exact ⟨c, by simp [lookup, hk, hc]⟩
+
+theorem repairWith_id (T : Table) (exp : ExpTable) (exc : List String) :
+    ∀ l : Table, (∀ p ∈ l, kindOk T exp p.1 = true ∨ exc.contains p.1 = true) → repairWith T exp exc l = l := by
+  intro l
+  induction l with
+  | nil => intro _; rfl
+  | cons t ts ih =>
+    intro h
+    obtain ⟨k, c⟩ := t
+    have hk : (kindOk T exp k || exc.contains k) = true := by
+      simp only [Bool.or_eq_true]
+      exact h (k, c) (List.mem_cons_self ..)
+    simp only [repairWith, hk, if_true]
+    rw [ih (fun p hp => h p (List.mem_cons_of_mem _ hp))]
+
 end Gms.ReadOnly
 
 /-! ## Property theorems -/
@@ -656,6 +686,84 @@ theorem kind_condition_holds (k : String) (c : Cls) (h : lookup tbl k = some c) 
     kindOk tbl expect k = true := by
   obtain ⟨e, he, hok⟩ := kindOk_of_pairs tbl kindExceptions tbl expect table_sound.1 table_sound.2 k c h hx
   simp [kindOk, he, resolve, h, hok]
+
+/-! ### The Spec does not lean on the source's table; DML wrapped by a trigger executor
+
+`wf tbl expect` contains `kindOk tbl expect`: if a method of the source goes wrong (say
+`TriggerExecutor.IsReadOnly` stops consulting the wrapped INSERT/UPDATE/DELETE), every tree
+holding that kind stops being well-formed over `tbl` and the theorems above say nothing about
+it. The driver therefore decides the Spec of such trees over `tblR`, the table with every unsound
+entry replaced by the shape the expectation prescribes. -/
+
+/-- Today's source needs no repair (a consequence of `table_sound`: while it holds, the table the
+driver falls back to is the source's own table and `wfSpecOnly` is false on every tree). -/
+theorem repair_is_identity : tblR = tbl := by
+  unfold tblR repair
+  apply repairWith_id
+  intro p hp
+  by_cases hx : p.1 ∈ kindExceptions
+  · right; simpa using hx
+  · left
+    obtain ⟨c, hc⟩ := lookup_of_mem tbl p hp
+    exact kind_condition_holds p.1 c hc hx
+
+/-- What the driver answers as Spec on a tree that is well-formed over the repaired table: a
+write must be reported (`false`), a non-write outside the stored-procedure region must pass. -/
+theorem spec_over_repaired_table (n : Node) (hw : wf tblR expect n = true) :
+    (verdict expect n = .block → isRO tblR n = .ok false) ∧
+    (storedProc tblR n = false → verdict expect n = .allow → isRO tblR n = .ok true) :=
+  isReadOnly_sound_generic tblR expect n hw
+
+theorem wfSpecOnly_never_today (n : Node) : wfSpecOnly n = false := by
+  unfold wfSpecOnly
+  rw [repair_is_identity]
+  cases wf tbl expect n <;> simp
+
+/-- **A trigger executor never hides the statement it wraps.** For AFTER triggers the analyzer
+makes `TriggerExecutor(left := the INSERT/UPDATE/DELETE, right := trigger logic)` the *root* of the
+plan; whatever the trigger logic is (even `SET @x = NEW.a`), a writing `left` makes the root a
+write, so the engine gate rejects it in read-only / locked mode. -/
+theorem trigger_executor_reports_wrapped_write (fld : String) (ch : Bool) (a : Attr) (l r : Node)
+    (ro locked : Bool)
+    (hw : wf tbl expect (.mk fld "plan.TriggerExecutor" ch a [l, r]) = true)
+    (hl : l.field = "left") (hv : verdict expect l = .block) (hm : ro = true ∨ locked = true) :
+    isRO tbl (.mk fld "plan.TriggerExecutor" ch a [l, r]) = .ok false ∧
+    engineGate ro locked (isRO tbl (.mk fld "plan.TriggerExecutor" ch a [l, r])) =
+      (if ro then .errReadOnly else .errLocked) := by
+  apply engine_blocks_every_write _ ro locked hw _ hm
+  have hE : lookupE expect "plan.TriggerExecutor" = some ⟨.none, ["left", "right"]⟩ := by decide +kernel
+  rw [verdict_mk expect fld "plan.TriggerExecutor" ch a [l, r] .none ["left", "right"] (by decide) hE]
+  rw [combine_block]
+  right
+  rw [verdicts_eq]
+  simp [hl, hv]
+
+/-- The same for the other position (BEFORE triggers: the executor is the row source *below* the
+DML node): the DML node itself is a writer whatever it wraps. -/
+theorem dml_over_trigger_executor_is_write (fld kind : String) (ch : Bool) (a : Attr) (cs : List Node)
+    (hk : kind ∈ ["plan.InsertInto", "plan.Update", "plan.DeleteFrom", "plan.Truncate"]) :
+    verdict expect (.mk fld kind ch a cs) = .block := by
+  simp only [List.mem_cons, List.mem_nil_iff, or_false] at hk
+  rcases hk with rfl | rfl | rfl | rfl <;>
+    (rw [verdict_mk expect fld _ ch a cs .write [] (by decide) (by decide +kernel), combine_block]; left; rfl)
+
+/-- The shape the analyzer builds for `INSERT` on a table with an `AFTER INSERT … SET @x = NEW.a`
+trigger. -/
+def afterTriggerInsert : Node :=
+  .mk "" "plan.TriggerExecutor" false Attr.none
+    [.mk "left" "plan.InsertInto" true Attr.none
+       [.mk "Destination" "plan.InsertDestination" true Attr.none [.mk "Child" resolvedTable true Attr.none []],
+        .mk "Source" "plan.Values" true Attr.none []],
+     .mk "right" "plan.TriggerBeginEndBlock" true Attr.none [.mk "statements" "plan.Set" true Attr.none []]]
+
+set_option maxRecDepth 100000 in
+/-- Non-vacuity of `trigger_executor_reports_wrapped_write`, and the trigger logic alone is a
+reader (so only the wrapped statement makes the root a write). -/
+example : wf tbl expect afterTriggerInsert = true ∧ verdict expect afterTriggerInsert = .block ∧
+    isRO tbl afterTriggerInsert = .ok false ∧
+    engineGate true false (isRO tbl afterTriggerInsert) = .errReadOnly ∧
+    isRO tbl (.mk "right" "plan.TriggerBeginEndBlock" true Attr.none [.mk "statements" "plan.Set" true Attr.none []]) = .ok true := by
+  decide +kernel
 
 /-- Finding (region `stored_procedure_call_rejected`): CALL of a stored procedure whose body only
 reads is a read-only statement, yet `Procedure.IsReadOnly` answers `false` for every
